@@ -212,7 +212,7 @@ theorem findTop_pos {b : Builder} (h : WF b) {i : Nat} {t : Tree} (hi : b.forest
   intro j hj
   have hjl : j < b.forest.length := by omega
   have := ids_lt_of_lt h (List.getElem?_eq_getElem hjl) hi hj
-  simp only [beq_iff_eq, Bool.not_eq_true, beq_eq_false_iff_ne, ne_eq]
+  simp only [beq_iff_eq, ne_eq]
   omega
 
 /-- Closing a checkpoint at an existing position: everything from there on becomes the
@@ -245,7 +245,7 @@ theorem closeAt_wrap {s : PState} {c i : Nat} (kind : Syntax) (h : Good s.b) (hn
     rw [List.getElem?_set]
     have hcl : c < s.b.cells.length := (List.getElem?_eq_some_iff.mp hv).1
     split
-    · simp [hcl]
+    · simp
     · rfl
   have hge : ¬ v ≥ s.b.nextId := by omega
   unfold closeAt Tot
